@@ -268,6 +268,11 @@ impl<'a> ast::Named<'a> {
     #[verifier::external_body]
     pub fn expr(self) -> (r: ast::Expr<'a>) requires self.wf(), tree_wf(self.0) ensures r.wf(), is_child_of(r.node(), self.0) { unimplemented!() }
 }
+impl<'a> ast::Closure<'a> {
+    /// the name of a named closure (`let f(x) = ..`): the Ident child in front of the parameter list, if any
+    #[verifier::external_body]
+    pub fn name(self) -> (r: Option<ast::Ident<'a>>) requires self.wf(), tree_wf(self.0) ensures r matches Some(i) ==> i.wf() && is_child_of(i.node(), self.0) { unimplemented!() }
+}
 impl<'a> ast::Spread<'a> {
     #[verifier::external_body]
     pub fn expr(self) -> (r: ast::Expr<'a>) requires self.wf(), tree_wf(self.0) ensures r.wf(), is_child_of(r.node(), self.0) { unimplemented!() }
